@@ -265,8 +265,12 @@ def run_fuzz(part: Part, ctx: Ctx, stats: "Stats", guard: typing.Any, examples: 
             for tok in part.fuzz_dict:
                 f.write('"%s"\n' % "".join(ch if 32 <= ord(ch) < 127 and ch not in '"\\' else "\\x%02x" % ord(ch) for ch in tok if ord(ch) < 256))
     runs = max(1000, examples)
+    if part.fuzz_decode == "hypothesis":  # instrumented runs of a structured check are an order of magnitude slower than plain ones
+        runs = examples
     cmd = [sys.executable, "-m", "vf.fuzz.target", "--prop", ctx.prop, "--part", part.name, "--out", out, "--runs", str(runs),
            "--seed", str(shard_seed(ctx.seed, ctx.prop, ctx.shard, part.name) % (2**31 - 1) + 1), "--repo", ctx.repo]
+    if part.fuzz_decode == "hypothesis":  # the bytes are the choice sequence of the part's strategy
+        cmd += ["--max-len", "16384", "--case-timeout", str(CASE_TIMEOUT.get(ctx.tier, 60))]
     if corpus:
         cmd += ["--corpus", corpus]
     if dict_path:
@@ -291,18 +295,22 @@ def run_fuzz(part: Part, ctx: Ctx, stats: "Stats", guard: typing.Any, examples: 
     p["fuzz_execs"] = int(st.get("execs", 0))
     p["fuzz_corpus"] = "seeded" if corpus else "empty"
     p["fuzz_raw_findings"] = int(st.get("violations", 0))
+    if st.get("timeouts"):
+        p["timeouts"] = p.get("timeouts", 0) + int(st["timeouts"])
+    if part.fuzz_decode == "hypothesis":
+        p["fuzz_nontrivial"] = int(st.get("nontrivial", 0))
     # re-run the findings (and a sample of the evolved corpus, for the evidence) through the plain check
     for fn in sorted(os.listdir(out)):
-        if fn.startswith("finding-"):
+        if fn.startswith("finding-") or fn.startswith("sample-"):
             rec = json.load(open(os.path.join(out, fn)))
-            case = rec["case"]
+            case = rec["case"] if fn.startswith("finding-") else rec
             try:
                 ok, info = guard(case, lambda: part.check(case, ctx))
                 stats.record(part.name, case, info if ok else None)
             except Violation as v:
                 stats.violations.append(_violation_record(part, ctx, case, v, salt="fuzz"))
     cdir = os.path.join(out, "corpus")
-    if os.path.isdir(cdir):
+    if os.path.isdir(cdir) and callable(part.fuzz_decode):
         for fn in sorted(os.listdir(cdir))[:200]:
             try:
                 case = part.fuzz_decode(open(os.path.join(cdir, fn), "rb").read())
@@ -373,12 +381,14 @@ def main(argv: typing.Optional[typing.List[str]] = None) -> int:
         ctx = Ctx(prop=a.prop, tier=a.tier, seed=a.seed, shard=a.shard, nshards=a.nshards, repo=a.repo, scratch_root=scratch)
         stats = Stats()
         budget = mod.BUDGET[a.tier]
-        parts = mod.parts(ctx)
+        parts = core.all_parts(mod, ctx)
         total_w = sum(p.weight for p in parts) or 1.0
         for p in parts:
             if a.only_part and p.name != a.only_part:
                 continue
             n = max(p.min_examples, int(budget * a.scale * p.weight / total_w / max(p.cost, 1e-9)))
+            if p.fuzz_decode == "hypothesis":
+                n = max(300, int(p.fuzz_runs * a.scale))
             t1 = time.time()
             run_part(p, ctx, stats, n, known, shrink_cap=20 if a.tier == "quick" else 240)
             stats.parts.setdefault(p.name, {"evaluations": 0, "nontrivial": 0})["wall_s"] = round(time.time() - t1, 2)
